@@ -133,6 +133,12 @@ var AwkwardValues = []Awkward{
 	}},
 	{"reflect.Value{}", func() any { return reflect.Value{} }},
 	{"reflect.ValueOf(5)", func() any { return reflect.ValueOf(5) }},
+	{"pointer chain of 12 to a string", func() any { return DeepPtr("deep", 12) }},
+	{"pointer chain of 70 to a Stack", func() any { return DeepPtr(stackage.Or().Push("deep-stack"), 70) }},
+	{"pointer chain of 9 to a Condition", func() any { return DeepPtr(stackage.Cond("dk", stackage.Eq, "dv"), 9) }},
+	{"pointer chain of 300 to an alias Stack", func() any { return DeepPtr(AStack(stackage.And().Push("deep-alias")), 300) }},
+	{"nil pointer of depth 9", func() any { return DeepNil(9) }},
+	{"nil pointer of depth 70", func() any { return DeepNil(70) }},
 	{"SelfPtr(nil)", func() any { var p SelfPtr; return p }},
 	{"SelfPtr->itself", func() any { var p SelfPtr; p = &p; return p }},
 	{"[]any{&int, &&int}", func() any { i := 5; q := &i; return []any{&i, &q} }},
